@@ -378,21 +378,24 @@ def run(ctx):
         meta.append((kind, desc, base, hk, expect))
 
     ntrunc_docs = 0
+    nsub = 0
     for ci, it in enumerate(corpus):
         base = G.parse(it["xml"])
         child = it["child"]
+        deviate = ctx.thorough or ci % 4 == 0      # quick: deviations on every 4th corpus document, schema documents on all
+        nsub += deviate
         sattrs = [a.name for a in (G.projected_attrs(child) if it["ctx"] == "default" else G.attrs_of(child))]
         add("valid", "corpus", it["name"], None, it["xml"], "accept")
-        for kind, desc, hk, xml in D.attr_deviations(base, it["path"], sattrs, hostile, all_nodes=ctx.thorough):
+        for kind, desc, hk, xml in (D.attr_deviations(base, it["path"], sattrs, hostile, all_nodes=ctx.thorough) if deviate else ()):
             add(kind, desc, it["name"], hk, xml)
         tgt = D.node_at(base, it["path"])
         if ctx.thorough:
             rn = all_tags
         else:
             rn = sorted({n.tag for n in base.nodes()} | {"body", "geom", "default", "plugin", "frame", "include"})
-        for kind, desc, hk, xml in D.elem_deviations(base, it["path"], rn, reparent=True, only=None if ctx.thorough else it["path"]):
+        for kind, desc, hk, xml in (D.elem_deviations(base, it["path"], rn, reparent=True, only=None if ctx.thorough else it["path"]) if deviate else ()):
             add(kind, desc, it["name"], hk, xml)
-        if len(it["xml"]) <= 2048 and (ctx.thorough or ci % 6 == ctx.seed % 6 or ci % 6 == 0):
+        if len(it["xml"]) <= 2048 and (ctx.thorough or ci % 12 == 0):
             ntrunc_docs += 1
             for kind, desc, hk, xml in D.truncations(it["xml"]):
                 add(kind, desc, it["name"], hk, xml)
@@ -404,7 +407,8 @@ def run(ctx):
         for desc, xml, exp in D.typed_docs(it):
             add("schema-type", desc, it["name"], None, xml, exp)
     # shipped small MJCF and URDF
-    extra = [("urdf %d" % i, t) for i, t in enumerate(D.urdf_corpus())] + D.shipped_small(2000, ctx.q(8, 60))
+    urdf = D.urdf_corpus()
+    extra = [("urdf %d" % i, t) for i, t in enumerate(urdf if ctx.thorough else urdf[:3])] + D.shipped_small(2000, ctx.q(4, 60))
     for name, text in extra:
         add("valid", "shipped", name, None, text, None)
         try:
@@ -462,6 +466,23 @@ def run(ctx):
         results, crashes = runner.run(order, group={k: meta[k][2] for k, _ in uniq})
     finally:
         runner.close()
+    # hangs are only believed if the document also exhausts the CPU / RSS limit in the plain (rel) build: a stall inside the
+    # sanitizer runtime (seen: spinning in its allocator when the compiler's error handler unwinds an engine error) is not
+    # a property of the tree
+    hang_ids = [k for k, c in crashes.items() if c["rc"] == "hang" and c.get("confirmed_single")]
+    rel_hang = set()
+    if hang_ids and runner.variant != "rel":
+        xmls = dict(uniq)
+        rr = Runner("rel", min(4, core.NCPU), tmp, CPU_LIMIT)
+        try:
+            _, rc2 = rr.run([(k, xmls[k]) for k in hang_ids])
+        finally:
+            rr.close()
+        rel_hang = {k for k, c in rc2.items() if c.get("confirmed_single")}
+        for k in hang_ids:
+            if k not in rel_hang:
+                ctx.extra["sanitizer_only_stalls"] = ctx.extra.get("sanitizer_only_stalls", 0) + 1
+                crashes[k]["asan_only"] = True
     # ---------------------------------------------------------- judge
     skipped = set(runner.skipped)
     if skipped:
@@ -476,6 +497,9 @@ def run(ctx):
             # a worker death that did not reproduce when the document was run alone: harness event, counted
             ctx.extra["unreproduced_worker_deaths"] = ctx.extra.get("unreproduced_worker_deaths", 0) + 1
             del crashes[k]
+        if k in crashes and crashes[k].get("asan_only"):
+            ctx.count(1)
+            continue
         if k in crashes:
             c = crashes[k]
             rc = c["rc"]
@@ -532,6 +556,7 @@ def run(ctx):
                               "%s: conforms to mjcf.schema but was rejected with: %s" % (ident, m), {"xml": x})
     ctx.extra["violation_keys"] = sorted(v[0] for v in ctx.violations)
     ctx.extra["findings"] = [{"key": v[0], "what": v[1][:300], "xml": (v[2] or {}).get("xml", "")[:1500]} for v in ctx.violations]
+    ctx.extra["corpus_documents_with_deviations"] = nsub
     ctx.extra.update(corpus_documents=len(corpus), edges_without_corpus=nocorpus, documents_generated=len(docs), documents_distinct=len(uniq),
                      outcomes=outcomes, schema_expectation_documents=nschema, truncated_corpus_documents=ntrunc_docs,
                      worker_processes=runner.nspawn, crashing_documents=len(crashes), hostile_values=hostile)
